@@ -453,6 +453,11 @@ def check_uninitialised(ctx, rep, rule):
                                             # for i, x in enumerate(seq): buf[i] = ..  with len(seq) == len(buf)
                                             sh0 = shape.elts[0] if isinstance(shape, ast.Tuple) else shape
                                             seq = it.args[0]
+                                            if isinstance(seq, ast.Attribute) and seq.attr == "T":
+                                                # enumerate(M.T): one iteration per column of M
+                                                cols = ast.Subscript(value=ast.Attribute(value=seq.value, attr="shape", ctx=ast.Load()), slice=ast.Constant(1), ctx=ast.Load())
+                                                if _getter_norm(f, cols) == _getter_norm(f, sh0):
+                                                    full = True
                                             if isinstance(seq, ast.Name):
                                                 ds = [n2 for n2 in ast.walk(f.node) if isinstance(n2, ast.Assign) and len(n2.targets) == 1 and isinstance(n2.targets[0], ast.Name) and n2.targets[0].id == seq.id]
                                                 if len(ds) == 1 and _short(ds[0].value) == "linspace" and len(ds[0].value.args) >= 3 and norm(ds[0].value.args[2]) == norm(sh0):
